@@ -34,10 +34,13 @@ def symbolUnchecked : Bool := false
 def symbolBaseEnum : Bool := false
 /-- hashes of the functions that form, coerce and hand on argument values (strings and comments stripped) -/
 def argSkeleton : List (String × String) := [
+  ("Error.in", "cffe1f43c8db"),
+  ("Errors.in", "fbcdd807c73e"),
   ("Input.CoerceIn", "1ae44ebae6eb"),
   ("Input.reflectSet", "7a298a1de3ad"),
   ("Input.reflectSetKey", "b97163bbb51d"),
   ("List.CoerceIn", "342314fa8b37"),
+  ("Root.addError", "c5f7e10ca815"),
   ("NonNull.CoerceIn", "07c35bfdab4c"),
   ("Root.formArgs", "4ce1628b3fc4"),
   ("Root.formReflectArgs", "3966a01466f3"),
